@@ -279,6 +279,10 @@ EXTRA_NOTES = {
     "C02": " Props/C02CachesFaults.v (pipe_refines_single_caches_strong): with caches, at EVERY fault (cache rejection included) registers, output and the whole "
            "memory system (directory, counters) agree. Props/C02FaultTrace.v: at a fault the pipeline has retired every executed instruction (icount + 1 = single-cycle icount) and its retire "
            "trace is the single-cycle trace, minus its last element exactly when the faulting load/store is back-to-back behind its predecessor.",
+    "C04": " Props/C04Lex.v + Model/Lex.v: the RISC-V tokenizer is inside the model (domain: every element of str.splitlines()); proved: layout (blanks/tabs next to "
+           "separators, indentation, trailing blanks and comments), mnemonic case, ABI/xN register spellings, number bases, comment and blank lines do not change "
+           "the result, with the exact limits of the grammar (lex_layout_limits, lex_label_case_matters); load_program(text) is compared with the model's lexer+assembler "
+           "on the same text on every run (requests 92/93).",
     "C03": " Props/C03LargeBlocks.v states exactly what holds without the bound: for ANY block size an in-word access to an address >= 2^14 is answered as by "
            "flat memory iff its block base is >= 2^14 (large_block_read_iff / _write_iff); below it reads and write-back writes fail with the block base "
            "and leave the cache unchanged, no such block ever becomes resident, and a write-through store is accepted but can never be read back "
